@@ -183,7 +183,7 @@ def bufGet (orc : Orc) (h : H) : Nat × H :=
   | none => fresh
   | some i =>
     match h.bufPool[i]? with
-    | some b => (b, { h with bufPool := h.bufPool.eraseIdx i, mem := upd h.mem b [], tick := h.tick + 1 })
+    | some b => (b, { h with bufPool := h.bufPool.erase b, mem := upd h.mem b [], tick := h.tick + 1 })
     | none => fresh
 
 /-- `Buffer.Free`: straight back into the pool, contents untouched -/
